@@ -9,6 +9,7 @@ package c14
 
 import (
 	"fmt"
+	rt "github.com/arnodel/golua/runtime"
 	"hash/fnv"
 	"math/rand"
 	"regexp"
@@ -122,7 +123,15 @@ func (Prop) RunBatch(c *vp.Child) {
 				c.Output(sl.name+"/"+id, digest(got))
 			},
 		}
+		if sl.name != "gen" {
+			// the error- and coroutine-heavy slices run in runtimes created inside a runtime
+			// context that has a host message handler (as golua's own driver does): it must
+			// never be applied to an error that a protected call or coroutine.resume catches,
+			// in any build (compared with the reference and across builds)
+			eng.SessOptions = func() gl.Options { return gl.Options{Ctx: &rt.RuntimeContextDef{MessageHandler: hostHandler}} }
+		}
 		cp.Run(c)
+		eng.SessOptions = func() gl.Options { return gl.Options{} }
 	}
 	// pool-stress templates
 	for i, t := range templates {
@@ -152,6 +161,15 @@ func (Prop) RunBatch(c *vp.Child) {
 		}
 	}
 }
+
+// hostHandler is the host's message handler: it marks string messages.
+var hostHandler = rt.NewGoFunction(func(t *rt.Thread, c *rt.GoCont) (rt.Cont, error) {
+	v := c.Arg(0)
+	if s, ok := v.TryString(); ok {
+		v = rt.StringValue("HOST<" + s + ">")
+	}
+	return c.PushingNext1(t.Runtime, v), nil
+}, "hosthandler", 1, false)
 
 // Finish compares the digests of all builds.
 func (Prop) Finish(p *vp.Parent) {
